@@ -234,7 +234,7 @@ func propC20(w *World, r *Report) {
 				if call, ok := in.(*ssa.Call); ok && call.Call.StaticCallee() == ctor {
 					r.Check(fn.Signature.Recv() == nil && !inLoop(b), "G3", "limiter built once, in a constructor (not in a method or loop)", w.InstrPos(call), fn.String())
 				}
-				if st, ok := in.(*ssa.Store); ok && isPtrTo(st.Val.Type(), T) {
+				if st, ok := in.(*ssa.Store); ok && (isPtrTo(st.Val.Type(), T) || limBehindIface(st.Val, T)) {
 					if _, isField := st.Addr.(*ssa.FieldAddr); isField {
 						nInstall++
 						r.Check(fn.Signature.Recv() == nil && !inLoop(b), "G3", "limiter installed in its owner only at construction (never replaced)", w.InstrPos(st), fn.String())
@@ -255,15 +255,21 @@ func propC20(w *World, r *Report) {
 					continue
 				}
 				callee := call.Call.StaticCallee()
-				if callee == nil || callee.Signature.Recv() == nil || !isPtrTo(callee.Signature.Recv().Type(), T) || fn.Signature.Recv() != nil && isPtrTo(fn.Signature.Recv().Type(), T) {
+				mname, margs := "", call.Call.Args
+				switch {
+				case callee != nil && callee.Signature.Recv() != nil && isPtrTo(callee.Signature.Recv().Type(), T) && !(fn.Signature.Recv() != nil && isPtrTo(fn.Signature.Recv().Type(), T)):
+					mname, margs = callee.Name(), call.Call.Args[1:]
+				case call.Call.IsInvoke() && limIfaces(w, T)[call.Call.Value.Type().String()]:
+					mname = call.Call.Method.Name() // the limiter behind an interface of the owner's own
+				default:
 					continue
 				}
-				if callee.Name() != "Printf" && callee.Name() != "Print" {
+				if mname != "Printf" && mname != "Print" {
 					continue
 				}
 				nSites++
 				src := ""
-				for _, a := range call.Call.Args[1:] {
+				for _, a := range margs {
 					if s := clockSourceOf(w, a, map[ssa.Value]bool{}, 0); s != "" {
 						src = s
 					}
@@ -293,7 +299,7 @@ func propC20(w *World, r *Report) {
 			}
 			owns := false
 			for i := 0; i < ost.NumFields(); i++ {
-				if isPtrTo(ost.Field(i).Type(), T) {
+				if isPtrTo(ost.Field(i).Type(), T) || limIfaces(w, T)[ost.Field(i).Type().String()] {
 					owns = true
 				}
 			}
@@ -467,4 +473,33 @@ func clockSourceOf(w *World, v ssa.Value, seen map[ssa.Value]bool, depth int) st
 		}
 	}
 	return ""
+}
+
+func limBehindIface(v ssa.Value, T *types.Named) bool {
+	mi, ok := v.(*ssa.MakeInterface)
+	return ok && isPtrTo(mi.X.Type(), T)
+}
+
+var limIfaceCache = map[*World]map[string]bool{}
+
+// limIfaces: the non-empty interface types a *LogLimiter is converted to in the repository (an interface extracted for
+// the limiter by its owner); a field of such a type holds the limiter, a call through it is a call on the limiter.
+func limIfaces(w *World, T *types.Named) map[string]bool {
+	if m, ok := limIfaceCache[w]; ok {
+		return m
+	}
+	m := map[string]bool{}
+	for _, fn := range w.RepoFuncs() {
+		for _, b := range fn.Blocks {
+			for _, in := range b.Instrs {
+				if mi, ok := in.(*ssa.MakeInterface); ok && isPtrTo(mi.X.Type(), T) {
+					if it, ok := mi.Type().Underlying().(*types.Interface); ok && it.NumMethods() > 0 {
+						m[mi.Type().String()] = true
+					}
+				}
+			}
+		}
+	}
+	limIfaceCache[w] = m
+	return m
 }
